@@ -136,9 +136,17 @@ class SymPt(SymVal):
 
     def sym_eq(self, other):
         if isinstance(other, SymPt):
-            if is_sym(self.t) or is_sym(other.t):
-                return _pt_term(self) == _pt_term(other)
-            return self.t == other.t
+            a, b = self.t, other.t
+            if is_sym(a) and is_sym(b):
+                return a == b
+            if is_sym(a) or is_sym(b):
+                s, n = (a, b) if is_sym(a) else (b, a)
+                if s.eq(INF):
+                    return n == _native_INF()
+                if n == _native_INF():
+                    return s == INF
+                raise NotImplementedError("mixing native and symbolic points")
+            return a == b
         return False
 
     def __repr__(self):
